@@ -24,6 +24,8 @@ ASSUMPTIONS = [
     "regexp ^[a-fA-F0-9]+$ is modelled as 'non-empty and every byte in the class'",
     "float64 range errors for numbers with huge exponents inside interface{}-typed fields (by-products, environment) are not modelled; "
     "encoding/json's nesting limit is not modelled",
+    "the loader model has no notion of file size (a tree is a tree): the large round-trip cases (1.2-3 MiB documents) are compared with "
+    "the property oracle only, the padded-junk cases are the model's 'not well-formed JSON' input",
     "the field schema is the literal of model/Loader.v, proved equal to the schema regenerated from the Go structs (gen/Schema.v) by "
     "C12_schema_tie",
 ]
@@ -112,6 +114,11 @@ def correspondence(ctx):
                  "artifact map, signature entry), array elements, map entries, type markers, payload type, base64 variants, truncation. "
                  "validate: valid layouts/links and every single-point invalidation of a format rule, hex-checked fields also with "
                  "non-ASCII look-alikes of hex digits (fullwidth, Arabic-Indic, Devanagari, mathematical digits, Cyrillic/Greek letters, mixed). "
+                 "multikey: layouts with 3-6 keys in keys / rootcas / intermediatecas, exactly one invalid (every kind), validated 40 times each "
+                 "(Go randomises the map order per call; a verdict that changes is reported as NONDETERMINISTIC). "
+                 "large: links with 12000 products / 1.5 MB of captured stdout dumped by the library and loaded back, both wrappers, both loaders "
+                 "(observable = length and SHA-256 of the canonical rendering). padded: a valid document, blanks, then junk starting around "
+                 "64 KiB, 1 MiB, 2 MiB, 4 MiB: must be refused. "
                  "non-trivial = every case (each has a non-empty document or metadata); distinct = distinct input JSON")
     return corr
 
